@@ -75,6 +75,8 @@ structure World where
   shards : List ShardState := []
   failNext : Option Nat := none
   trace : Bool := false
+  /-- `notifier <epoch>`: the notifiers of the worlds created afterwards confirm this epoch to every handler at registration -/
+  regEpoch : Option Nat := none
 deriving Inhabited
 
 def World.payableFn (w : World) (a : Bytes) : PayAns :=
